@@ -290,8 +290,13 @@ def sim_next_sched(orig, self, event, scheduler_frequency, last_scheduler_start_
                 comps.append(us(t.expected_start_time + t.remaining_time))
             elif t.state == TaskState.RUNNING:
                 comps.append(us(self._simulator_time + t.remaining_time))
-        nrel = self._event_queue.get_next_event_of_type(EventType.TASK_RELEASE)
-        nupd = self._event_queue.get_next_event_of_type(EventType.UPDATE_WORKLOAD)
+        # the earliest pending release / workload update, computed from the pending events themselves (not through the
+        # queue's own get_next_event_of_type, which is part of what is being checked)
+        pend = list(self._event_queue._event_queue)
+        rels = [e for e in pend if e.event_type == EventType.TASK_RELEASE]
+        upds = [e for e in pend if e.event_type == EventType.UPDATE_WORKLOAD]
+        nrel = min(rels, key=lambda e: us(e.time)) if rels else None
+        nupd = min(upds, key=lambda e: us(e.time)) if upds else None
         full = bool(self._worker_pools.is_full())
         pre = {"now": us(event.time), "freq": us(scheduler_frequency), "last": us(last_scheduler_start_time),
                "timeout": us(loop_timeout), "delay": us(self._scheduler_delay), "worker_free": bool(self._run_scheduler_at_worker_free),
